@@ -44,8 +44,21 @@ if [ -n "$demo" ]; then
 fi
 if [ "${SEED_SKIP_SUITE:-0}" != 1 ]; then
   (cd "$V" && timeout 1500 go test -vet=off -count=1 -timeout 20m ./... > "$L/suite.with.log" 2>&1) && suite_with=pass || {
-    # the srv ForceSigKILL test is flaky on the unchanged tree; anything else is a real failure
-    if grep -E '^(--- FAIL|FAIL|panic:)' "$L/suite.with.log" | grep -v -E 'ForceSigKILL|TestCmd|^FAIL$|FAIL\s+github.com/tychoish/fun/srv' | grep -q .; then suite_with=FAIL; else suite_with=pass-modulo-known-flaky-srv-TestCmd; fi
+    # timing-sensitive tests (Interval, TTL, srv TestCmd ForceSigKILL ...) flake when the machine is
+    # busy, on the unchanged tree as well: a failing package is re-run alone up to 3 times and only a
+    # package that never passes counts as a failure caused by the change.
+    suite_with=pass-after-rerun
+    for pk in $(grep -E '^FAIL[[:space:]]+github.com' "$L/suite.with.log" | awk '{print $2}'); do
+      okp=0
+      for try in 1 2 3; do
+        (cd "$V" && timeout 900 go test -vet=off -count=1 "$pk" >> "$L/suite.rerun.log" 2>&1) && { okp=1; break; }
+      done
+      if [ $okp = 0 ]; then
+        if [ "$pk" = github.com/tychoish/fun/srv ] && ! grep -E '^\s*--- FAIL' "$L/suite.rerun.log" | grep -v -E 'TestCmd|ForceSigKILL' | grep -q .; then
+          suite_with="$suite_with(srv:TestCmd-flaky-on-unchanged-tree)"
+        else suite_with=FAIL:$pk; fi
+      fi
+    done
   }
 fi
 echo "seed $name: demo without=$res_without with=$res_with build=$build_with suite_with_change=$suite_with"
